@@ -2,10 +2,10 @@
 # Re-run every seed that was made on top of a stored refactoring (rounds 5, 7 and 9: seeded/*-d, *-e, *-f) against the
 # current /verif: own check + those that fired before.  Scratch trees only; /repo is not touched.
 cd /verif
-for d in seeded/*-d/ seeded/*-e/ seeded/*-f/; do
+for d in seeded/*-d/ seeded/*-e/ seeded/*-f/ seeded/*-g/ seeded/*-i/; do
   [ -f "$d/meta.json" ] || continue
   n=$(basename $d); pid=$(python3 -c "import json;print(json.load(open('$d/meta.json'))['property'])")
-  base=$(python3 -c "import json,re;print(re.search(r'benign/([^/]+)/', json.load(open('$d/meta.json'))['base']).group(1))")
+  base=$(python3 -c "import json,re;m=re.search(r'benign/([^/]+)/', json.load(open('$d/meta.json'))['base']); print(m.group(1) if m else 'none')")
   prev=$(python3 -c "import json;print(','.join(sorted(set(json.load(open('$d/meta.json')).get('detected_by',{}))|{'$pid'})))")
   /venv/bin/python tools/seed5_intake.py $n /nonexistent $pid --base $base --checks $prev --no-copy 2>&1 | python3 -c "
 import sys,json
